@@ -54,6 +54,21 @@ run at the positions the loop's branch order distinguishes (1st failure, after T
    undetermined (BrokenPipeError without errno, the old not-judged rows) -> the statement leaves T or P open, but the limited-retry
         class is a closed list they are not on: "retried as one failure and raised as another" (within one call or across calls
         of the same helper family) fits neither reading                                key unlisted/retried-then-raised
+
+What a failure carries ("wait ... within the documented jittered exponential bounds and never longer than the maximum" for failures that
+themselves say how long to wait).  The documented window is a function of the number of failures only; a failed HTTP response, however, is
+not just a status: it has headers, a body and attributes, and throttling / unavailable / quota responses of real services carry a wait hint there
+(Retry-After in delay-seconds or HTTP-date form, Retry-After-Ms / x-ms-retry-after-ms, X-RateLimit-Reset[-After] / RateLimit-Reset, Google's
+RetryInfo.retryDelay in the error body, a "retry after N seconds" text, a retry_after attribute set by an SDK).  A retry loop that consults any of
+it behaves exactly as documented on bare exception objects (every response error of the catalogue has empty headers and a fixed body), so the
+rows of build_hints() are generated: every retryable response-error row (T, R, L) x every hint carrier x values below the floor, inside the window,
+between the ceiling and the maximum, and far above the maximum, plus a few permanent rows and explicitly chained ones.  Each is run as the 1st .. 8th
+failure (the window moves with the position, so the same value is below / inside / above it), twice and seven times in a row, before plain failures
+(a hint must not stick to later waits), after a limited-retry and a rate-limit failure, through an async helper and the sync helper; seeded
+sequences mix them with catalogue rows.  Oracle (nothing new is demanded, the statement has no exception for hinted failures):
+   the wait after the k-th failure is inside the documented window for k whatever the failure carries   keys delay/<...>/server-hint
+   the class of a failure is the class of its status / body / cause chain whatever else it carries      keys <class keys>/server-hint
+   (rate-limit / transient with a hint longer than the maximum: still retried, not given up; permanent with a hint: still raised at once)
 """
 import asyncio
 import errno
@@ -81,7 +96,11 @@ RULE = (
     'OSError class x {no arguments, message only, a listed errno, an unlisted errno}; user-defined subclasses of ConnectionError / OSError; bases and siblings of the '
     'listed aiohttp classes; aiohttp and hailtop.httpx response errors for every status 300..599; RuntimeError explicitly caused by each class-shaped row) and the '
     'undetermined rows, each as the only failure, after transient / rate-limit / limited failures, as the 5th and as the 6th failure and seven times in a row, through '
-    'an async helper and the sync helper; phase random-neighbour: seeded sequences mixing these rows with catalogue rows. '
+    'an async helper and the sync helper; phase random-neighbour: seeded sequences mixing these rows with catalogue rows; '
+    'phase hint: ~300 generated response errors that carry a server wait hint (17 retryable + 6 permanent + 2 chained base rows x Retry-After in delay-seconds / HTTP-date / '
+    'padded / lower-case form, Retry-After-Ms, x-ms-retry-after-ms, X-RateLimit-Reset[-After], RateLimit-Reset, RetryInfo.retryDelay and retry-after text in the body, a '
+    'retry_after attribute; values from 0 s to 1 day), each as the 1st..8th failure, 2 and 7 times in a row, before plain failures, after a limited / rate-limit failure, '
+    'through an async helper and the sync helper; phase random-hint: seeded sequences mixing hinted rows with catalogue rows (some raised in context modes). '
     'Distinct = (helper, sequence of catalogue names with raise mode and handled value, ambient handled value); non-trivial = at least one failure.'
 )
 ASSUMPTIONS = [
@@ -93,6 +112,8 @@ ASSUMPTIONS = [
     'the errno list, the status-code comment and the two retry-once classes are closed lists: an OSError-family value with an unlisted errno that is not a TimeoutError and '
     'not one of the two retry-once classes, and a response error with an unlisted status, are "any other error" (BrokenPipeError without the listed errno is left undetermined)',
     'an undetermined value is either transient or permanent, never limited-retry (except where its explicit cause is on the retry-once list)',
+    'the documented delay window depends on the number of failures only: nothing a failure carries (response headers, body, attributes) widens, narrows or moves it, '
+    'and nothing it carries besides status / listed body texts / cause chain changes its class',
 ]
 TRUSTED_BASE = ['vf/sim/vloop.py', 'the CATALOGUE table in vf/monitors/c21.py', 'CPython asyncio']
 SHARDS = {'quick': 1, 'thorough': 16}
@@ -147,6 +168,33 @@ FLOORS = {
     'neighbour:retryable_retried': 1300,
     'neighbour:limited_sixth_occurrence_checked': 6,
     'never_limited_checked': 350,
+    # failures that carry a server wait hint (about half of the minimum observed in the quick tier over seeds 0..4)
+    'sequences_hint': 5000,
+    'sequences_random_hint': 1000,
+    'hinted_rows': 180,
+    'server_hint_carriers': 5,
+    'server_hint_positions': 75,
+    'failures_with_server_hint': 10000,
+    'waits_after_server_hint': 9000,
+    'waits_after_earlier_server_hint': 2400,
+    'waits_after_server_hint[async]': 6000,
+    'waits_after_server_hint[sync]': 3300,
+    'waits_after_server_hint[R]': 3400,
+    'waits_after_server_hint[T]': 5300,
+    'waits_after_server_hint[L]': 600,
+    'waits_after_server_hint[header]': 8200,
+    'waits_after_server_hint[body]': 790,
+    'waits_after_server_hint[attr]': 370,
+    'waits_after_server_hint[hint above-maximum]': 5600,
+    'waits_after_server_hint[hint between-ceiling-and-maximum]': 1000,
+    'waits_after_server_hint[hint below-floor]': 2300,
+    'waits_after_server_hint[hint inside-window]': 270,
+    'waits_after_server_hint[async,R,above-maximum]': 1400,
+    'waits_after_server_hint[async,R,between-ceiling-and-maximum]': 250,
+    'waits_after_server_hint[async,R,below-floor]': 620,
+    'waits_after_server_hint[async,T,above-maximum]': 1800,
+    'waits_after_server_hint[async,T,between-ceiling-and-maximum]': 350,
+    'waits_after_server_hint[async,T,below-floor]': 760,
 }
 
 MAX_MS = 60_000
@@ -403,6 +451,158 @@ def build_neighbourhood(dont_retry_500):
     return N
 
 
+# ------------------------------------------------------------------------------------------
+# failures that carry a server wait hint ("within the documented bounds and never longer than the maximum", whatever the failure says)
+# ------------------------------------------------------------------------------------------
+# header hints: (token, {header: value | callable(now) -> value}, seconds a client honouring the hint would wait)
+_DAY = 86_400
+
+
+def _http_date(offset_s):
+    from email.utils import formatdate
+
+    return lambda now: formatdate(now + offset_s, usegmt=True)
+
+
+HINT_HEADERS = (
+    [(f'Retry-After={v}', {'Retry-After': v}, float(v)) for v in ('0', '1', '7', '45', '59', '60', '61', '120', '3600', '86400', '0.25')]
+    + [
+        ('Retry-After=300-padded', {'Retry-After': ' 300 '}, 300.0),
+        ('Retry-After=date+3600', {'Retry-After': _http_date(3600)}, 3600.0),
+        ('Retry-After=date-60', {'Retry-After': _http_date(-60)}, -60.0),
+        ('retry-after=3600', {'retry-after': '3600'}, 3600.0),
+        ('Retry-After-Ms=5000000', {'Retry-After-Ms': '5000000'}, 5000.0),
+        ('x-ms-retry-after-ms=250', {'x-ms-retry-after-ms': '250'}, 0.25),
+        ('X-RateLimit-Reset=epoch+1800', {'X-RateLimit-Reset': lambda now: str(int(now) + 1800), 'X-RateLimit-Remaining': '0'}, 1800.0),
+        ('X-RateLimit-Reset-After=1800', {'X-RateLimit-Reset-After': '1800', 'X-RateLimit-Remaining': '0'}, 1800.0),
+        ('RateLimit-Reset=900', {'RateLimit-Reset': '900', 'RateLimit-Limit': '100', 'RateLimit-Remaining': '0'}, 900.0),
+        ('Retry-After=3600,X-RateLimit-Remaining=0', {'Retry-After': '3600', 'X-RateLimit-Remaining': '0', 'Content-Type': 'application/json'}, 3600.0),
+    ]
+)
+# body hints (hailtop.httpx errors only: aiohttp's have no body): (token, kind, value, seconds)
+HINT_BODIES = [
+    ('body.retryDelay=3600s', 'RetryInfo', '3600s', 3600.0),
+    ('body.retryDelay=90s', 'RetryInfo', '90s', 90.0),
+    ('body.retryDelay=0.1s', 'RetryInfo', '0.1s', 0.1),
+    ('body.retry-after-text=3600', 'text', 'Please retry after 3600 seconds.', 3600.0),
+]
+# attribute hints (set by SDK wrappers on the exception object): (token, attribute, value, seconds)
+HINT_ATTRS = [('attr.retry_after=3600', 'retry_after', 3600.0, 3600.0)]
+HINTS_FOR_PERMANENT = ('Retry-After=1', 'Retry-After=120', 'Retry-After=3600', 'Retry-After=date+3600', 'X-RateLimit-Reset-After=1800', 'body.retryDelay=3600s', 'attr.retry_after=3600')
+HINTS_FOR_CHAINED = ('Retry-After=0', 'Retry-After=45', 'Retry-After=3600', 'Retry-After-Ms=5000000', 'body.retryDelay=3600s')
+
+
+def build_hints(dont_retry_500):
+    """rows (name, class, factory, info) = a response error of a documented class + a wait hint where real servers / SDKs put one.
+    info: base row, carrier kind ('header' | 'body' | 'attr'), carrier detail, hint in seconds, check(e) -> does the object really carry it"""
+    import json
+    import time as _time
+
+    import aiohttp
+    import hailtop.httpx as hx
+    from multidict import CIMultiDict, CIMultiDictProxy
+    from yarl import URL
+
+    req = aiohttp.RequestInfo(URL('https://storage.example.invalid/b/o'), 'GET', CIMultiDictProxy(CIMultiDict()), URL('https://storage.example.invalid/b/o'))
+    # (base name, class, kind, status, reason phrase, plain body, google error reason)
+    bases = [
+        ('aiohttp-429', 'R', 'aiohttp', 429, 'Too Many Requests', None, None),
+        ('httpx-429', 'R', 'httpx', 429, 'Too Many Requests', 'slow down', 'rateLimitExceeded'),
+        ('httpx-403-rateLimitExceeded', 'R', 'httpx', 403, 'Forbidden', '{"error": {"errors": [{"reason": "rateLimitExceeded"}]}}', 'rateLimitExceeded'),
+        ('aiohttp-503', 'T', 'aiohttp', 503, 'Service Unavailable', None, None),
+        ('aiohttp-408', 'T', 'aiohttp', 408, 'Request Timeout', None, None),
+        ('aiohttp-500', 'P' if dont_retry_500 else 'T', 'aiohttp', 500, 'Internal Server Error', None, None),
+        ('aiohttp-502', 'T', 'aiohttp', 502, 'Bad Gateway', None, None),
+        ('aiohttp-504', 'T', 'aiohttp', 504, 'Gateway Timeout', None, None),
+        ('httpx-503', 'T', 'httpx', 503, 'Service Unavailable', 'backend unavailable', 'backendError'),
+        ('httpx-504', 'T', 'httpx', 504, 'Gateway Timeout', 'upstream request timeout', 'backendError'),
+        ('httpx-500', 'P' if dont_retry_500 else 'T', 'httpx', 500, 'Internal Server Error', 'Backend Error', 'internalError'),
+        ('httpx-400-user-project', 'L', 'httpx', 400, 'Bad Request', 'User project specified in the request is invalid.', 'invalid'),
+        ('httpx-400-invalid-grant', 'L', 'httpx', 400, 'Bad Request', 'Invalid grant: account not found', 'invalid_grant'),
+        ('aiohttp-403', 'P', 'aiohttp', 403, 'Forbidden', None, None),
+        ('aiohttp-404', 'P', 'aiohttp', 404, 'Not Found', None, None),
+        ('aiohttp-409', 'P', 'aiohttp', 409, 'Conflict', None, None),
+        ('httpx-400-other', 'P', 'httpx', 400, 'Bad Request', 'Invalid bucket name', 'invalid'),
+        ('httpx-403-forbidden', 'P', 'httpx', 403, 'Forbidden', 'caller does not have storage.objects.get access', 'forbidden'),
+        ('httpx-404', 'P', 'httpx', 404, 'Not Found', 'No such object', 'notFound'),
+    ]
+    chained_bases = ('aiohttp-429', 'httpx-503')  # RuntimeError explicitly caused by the hinted response error: class T ("chained via __cause__")
+
+    def make(kind, status, phrase, body, headers=None):
+        h = None
+        if headers is not None:
+            now = _time.time()
+            h = CIMultiDictProxy(CIMultiDict({k: (v(now) if callable(v) else v) for k, v in headers.items()}))
+        if kind == 'aiohttp':
+            return aiohttp.ClientResponseError(req, (), status=status, message=phrase, headers=h)
+        return hx.ClientResponseError(req, (), body=body, status=status, message=phrase, headers=h if h is not None else CIMultiDictProxy(CIMultiDict({'Content-Type': 'application/json'})))
+
+    H = []
+
+    def add(bname, cls, hname, fac, info):
+        info = dict(info, base=bname)
+        H.append((f'{bname}+{hname}', cls, fac, info))
+        if bname in chained_bases and hname in HINTS_FOR_CHAINED:
+            def chained(fac=fac):
+                o = RuntimeError('request failed')
+                o.__cause__ = fac()
+                return o
+
+            H.append((f'RuntimeError<-{bname}+{hname}', 'T', chained, dict(info, check=(lambda e, c=info['check']: e.__cause__ is not None and c(e.__cause__)))))
+
+    for bname, cls, kind, status, phrase, body, reason in bases:
+        for hname, headers, secs in HINT_HEADERS:
+            if cls == 'P' and hname not in HINTS_FOR_PERMANENT:
+                continue
+            first = next(iter(headers))  # the header that carries the hint comes first
+            add(
+                bname, cls, hname,
+                (lambda kind=kind, status=status, phrase=phrase, body=body, headers=headers: make(kind, status, phrase, body, headers)),
+                {'carrier': 'header', 'detail': first.lower(), 'hint_s': secs, 'check': (lambda e, k=first: e.headers is not None and e.headers.get(k.upper()) is not None)},
+            )
+        if kind == 'httpx':
+            for hname, bkind, value, secs in HINT_BODIES:
+                if cls == 'P' and hname not in HINTS_FOR_PERMANENT:
+                    continue
+                if bkind == 'RetryInfo':
+                    # the JSON error document of Google APIs: the texts the classifiers look for stay where they are (message / reason)
+                    b = json.dumps({'error': {
+                        'code': status, 'message': body if not body.startswith('{') else 'Rate Limit Exceeded', 'errors': [{'reason': reason, 'domain': 'usageLimits'}],
+                        'details': [{'@type': 'type.googleapis.com/google.rpc.RetryInfo', 'retryDelay': value}],
+                    }})
+                else:
+                    b = f'{body} {value}'
+                add(
+                    bname, cls, hname,
+                    (lambda kind=kind, status=status, phrase=phrase, b=b: make(kind, status, phrase, b)),
+                    {'carrier': 'body', 'detail': bkind, 'hint_s': secs, 'check': (lambda e, value=value: value in e.body)},
+                )
+        for hname, attr, value, secs in HINT_ATTRS:
+            if cls == 'P' and hname not in HINTS_FOR_PERMANENT:
+                continue
+
+            def fac(kind=kind, status=status, phrase=phrase, body=body, attr=attr, value=value):
+                e = make(kind, status, phrase, body)
+                setattr(e, attr, value)
+                return e
+
+            add(bname, cls, hname, fac, {'carrier': 'attr', 'detail': attr, 'hint_s': secs, 'check': (lambda e, attr=attr: getattr(e, attr, None) is not None)})
+    return H
+
+
+def hint_vs_window(hint_s, k):
+    """where a client that waited exactly the hinted time would land relative to the documented window of the wait after failure k"""
+    lo, hi = bounds_ms(k)
+    ms = hint_s * 1000.0
+    if ms > MAX_MS:
+        return 'above-maximum'
+    if ms > hi:
+        return 'between-ceiling-and-maximum'
+    if ms < lo:
+        return 'below-floor'
+    return 'inside-window'
+
+
 ENUM_ALPHABET = [
     'aiohttp-503', 'aiohttp-500', 'httpx-504', 'ServerDisconnectedError', 'asyncio.TimeoutError', 'ClientConnectorError-EHOSTUNREACH',
     'ClientOSError-ECONNRESET', 'OSError-EPIPE', 'gaierror-EAI_AGAIN', 'ValueError<-asyncio.TimeoutError',
@@ -560,6 +760,14 @@ def run(ctx):
         nb_family[name] = family
         ctx.seen('neighbour_rows', f'{cls or "U"}:{name}')
         ctx.seen('neighbour_families', f'{family}:{cls or "U"}')
+    # failures that carry a server wait hint (generated rows; usable in sequences like catalogue rows)
+    HN = build_hints(os.environ.get('HAIL_DONT_RETRY_500') == '1')
+    hint_info = {}
+    for name, cls, fac, info in HN:
+        assert name not in by_name and '@' not in name, name
+        by_name[name] = (cls, fac)
+        hint_info[name] = info
+        ctx.seen('hinted_rows', f'{cls}:{name}')
     # the undetermined rows can appear in sequences too (class None = not judged as T or P; only the never-limited oracle applies)
     for name, fac in U:
         by_name[name] = (None, fac)
@@ -685,13 +893,22 @@ def run(ctx):
             elif expected:
                 ctx.count('implicit_context_expected_but_absent')
                 ctx.inconclusive_because(f'{seq[idx][0]} [{helper}, ambient {ambient}] was raised without the intended __context__')
+        for idx, e in enumerate(raised_objs):
+            info = hint_info.get(seq[idx][3])
+            if info is not None:
+                if info['check'](e):
+                    ctx.count('failures_with_server_hint')
+                    ctx.seen('server_hint_carriers', f'{info["carrier"]}:{info["detail"]}')
+                else:
+                    ctx.count('server_hint_expected_but_absent')
+                    ctx.inconclusive_because(f'{seq[idx][0]} was raised without the intended wait hint ({info["carrier"]}:{info["detail"]})')
         for idx in range(min(n_calls, len(seq))):
             tk, cls, _, name, mode, hcls, _ = seq[idx]
             in_ctx = mode is not None or ambient is not None
             how = '' if not in_ctx else ' raised ' + ' and '.join(
                 ([f'in mode {mode!r} while handling {parse_tok(tk)[2]} ({hcls})'] if mode else []) + ([f'inside a caller handling {ambient} ({amb_cls})'] if ambient else [])
             )
-            sfx = '/implicit-context' if in_ctx else ''
+            sfx = ('/server-hint' if name in hint_info else '') + ('/implicit-context' if in_ctx else '')
             if judged and cls is not None:
                 if mode is not None:
                     ctx.seen('context_modes', mode)
@@ -803,16 +1020,37 @@ def run(ctx):
                     bad.append(('propagate/foreign-exception', f'{out[1]!r} came out after {n_calls} calls; last injected {raised_objs[-1:]!r}'))
         # ---- delays ---------------------------------------------------------------------------
         n_retries = n_calls - 1 if n_calls else 0
+        fam = 'sync' if helper == 'sync' else 'async'
+        hint_seen = None  # the latest failure of this call that carried a wait hint: (position, token)
         for j in range(n_retries):
             waited_ms = (call_times[j + 1] - fail_times[j]) * 1000.0
             lo, hi = bounds_ms(j + 1)
             ctx.count('sleeps_checked')
+            # the statement's window has no exception for failures that say how long to wait: same bounds, separate keys
+            info = hint_info.get(seq[j][3]) if j < len(seq) else None
+            if info is not None:
+                hint_seen = (j + 1, seq[j][0])
+                rel = hint_vs_window(info['hint_s'], j + 1)
+                ctx.count('waits_after_server_hint')
+                ctx.count(f'waits_after_server_hint[{fam}]')
+                ctx.count(f'waits_after_server_hint[{seq[j][1]}]')
+                ctx.count(f'waits_after_server_hint[{info["carrier"]}]')
+                ctx.count(f'waits_after_server_hint[hint {rel}]')
+                if fam == 'async' and seq[j][1] in ('T', 'R') and rel != 'inside-window':
+                    ctx.count(f'waits_after_server_hint[async,{seq[j][1]},{rel}]')
+                ctx.seen('server_hint_positions', f'{info["carrier"]}:{info["detail"]} {rel} after failure {j + 1}')
+            elif hint_seen is not None:
+                ctx.count('waits_after_earlier_server_hint')
+            hs, hwhat = '', ''
+            if hint_seen is not None:
+                hs = '/server-hint'
+                hwhat = f'; failure {hint_seen[0]} was {hint_seen[1]}' + (f', whose hint says {info["hint_s"]} s' if info is not None else '')
             if waited_ms > MAX_MS + 1e-3:
-                bad.append(('delay/above-maximum', f'waited {waited_ms:.3f} ms after failure {j + 1} (maximum {MAX_MS})'))
+                bad.append((f'delay/above-maximum{hs}', f'waited {waited_ms:.3f} ms after failure {j + 1} (maximum {MAX_MS}){hwhat} [{helper}]'))
             elif waited_ms > hi + 1e-3:
-                bad.append(('delay/above-jitter-ceiling', f'waited {waited_ms:.3f} ms after failure {j + 1}, documented ceiling {hi}'))
+                bad.append((f'delay/above-jitter-ceiling{hs}', f'waited {waited_ms:.3f} ms after failure {j + 1}, documented ceiling {hi}{hwhat} [{helper}]'))
             elif waited_ms < lo - 1e-3:
-                bad.append(('delay/below-jitter-floor', f'waited {waited_ms:.3f} ms after failure {j + 1}, documented floor {lo}'))
+                bad.append((f'delay/below-jitter-floor{hs}', f'waited {waited_ms:.3f} ms after failure {j + 1}, documented floor {lo}{hwhat} [{helper}]'))
         for n, v in jit.calls:
             if v == 0:
                 ctx.count('jitter_at_lower_extreme')
@@ -970,8 +1208,43 @@ def run(ctx):
                     ctx.count('sequences_neighbour')
                     report(bad, helper, names, out, n_calls)
 
+        def hint_sequences():
+            """every hinted row at every position whose window differs (1st .. 8th failure: the window reaches the maximum at the 6th and collapses onto it
+            at the 7th), repeated, followed by plain failures (a hint is about the next wait only -- and even that one stays inside the window), and after
+            a limited-retry / a rate-limit failure (the loop's branch order)"""
+            t0, t1, r0, l0 = 'asyncio.TimeoutError', 'aiohttp-503', 'aiohttp-429', 'ConnectionResetError-bare'
+            plain = (t0, t1, 'OSError-EPIPE', t1, t0, 'ServerDisconnectedError', t1)
+            for name, cls, _, _ in HN:
+                if cls == 'P':
+                    for seq in ((name,), (t0, name), (r0, t1, name), (l0, name), plain[:5] + (name,)):
+                        yield seq
+                    continue
+                for k in range(0, 8):
+                    yield plain[:k] + (name,)
+                yield (name, name)
+                yield (name,) * 7
+                yield (name, t0, t1)
+                yield (t0, name, t1, name, t0)
+                yield (l0, name)
+                yield (r0, name, r0)
+                yield (name, 'ValueError')
+
+        async def hint_main(loop):
+            m = 0
+            for names in hint_sequences():
+                m += 1
+                if m % ctx.n_shards != ctx.shard:
+                    continue
+                for helper in (('plain', 'debug', 'delayed')[m % 3], 'sync'):
+                    rng = ctx.rng('hint', m, helper)
+                    bad, out, n_calls = await evaluate(loop, helper, names, rng)
+                    ctx.case(sample={'helper': helper, 'sequence': list(names), 'calls': n_calls, 'outcome': out[0]}, key=(helper, names), nontrivial=True)
+                    ctx.count('sequences_hint')
+                    report(bad, helper, names, out, n_calls)
+
         ctx.set_time_budget(ctx.pick(45, 480))
         if ctx.replay is None:
+            run_virtual(hint_main, start=0.0, max_steps=None)
             run_virtual(neighbour_main, start=0.0, max_steps=None)
             run_virtual(enum_main, start=0.0, max_steps=None)
         elif ctx.replay.get('case_index') is None and isinstance(ctx.replay.get('witness'), dict) and 'sequence' in ctx.replay['witness']:
@@ -1075,6 +1348,37 @@ def run(ctx):
             bad, out, n_calls = run_virtual(main, start=0.0, max_steps=None)
             ctx.case(sample={'helper': helper, 'sequence': list(names), 'calls': n_calls, 'outcome': out[0]}, key=(helper, names), nontrivial=True)
             ctx.count('sequences_random_neighbour')
+            report(bad, helper, names, out, n_calls)
+
+        # ---- phase random-hint: seeded sequences mixing hinted rows with catalogue rows ---------------------------------------
+        hn_retryable = [n for n, c, _, _ in HN if c != 'P']
+        hn_perm = [n for n, c, _, _ in HN if c == 'P']
+        hn_rate = [n for n, c, _, _ in HN if c == 'R']
+        for _i, rng in ctx.cases(ctx.pick(2000, 12000), 'random-hint'):
+            helper = rng.choice(['plain', 'debug', 'delayed', 'plain', 'debug', 'sync'])
+            length = rng.choice([1, 2, 3, 4, 5, 6, 7, 8, 10, 13])
+            p_h = rng.choice([0.2, 0.5, 1.0])
+            p_dec = rng.choice([0.0, 0.0, 0.2])
+            names = []
+            for _ in range(length):
+                if rng.random() < p_h:
+                    nm = rng.choice(rng.choice([hn_retryable, hn_rate]))
+                else:
+                    nm = rng.choice(nonperm_all)
+                if rng.random() < p_dec:
+                    mode = rng.choice([m for m in CONTEXT_MODES if mode_applies(m, nm)])
+                    nm = tok(nm, mode, rng.choice(all_names))
+                names.append(nm)
+            if rng.random() < 0.3:
+                names.append(rng.choice(rng.choice([hn_perm, perm_all])))
+            names = tuple(names)
+
+            async def main(loop, helper=helper, names=names, rng=rng):
+                return await evaluate(loop, helper, names, rng)
+
+            bad, out, n_calls = run_virtual(main, start=0.0, max_steps=None)
+            ctx.case(sample={'helper': helper, 'sequence': list(names), 'calls': n_calls, 'outcome': out[0]}, key=(helper, names), nontrivial=True)
+            ctx.count('sequences_random_hint')
             report(bad, helper, names, out, n_calls)
 
         # ---- undetermined rows: executed and recorded, classification not judged --------------------
